@@ -23,6 +23,7 @@ type vUpstream struct {
 	maxRecs  int
 	lastResp *dnsmsg.Msg
 	ctxSeen  context.Context
+	fixedTTL bool
 }
 
 func (u *vUpstream) ExchangeContext(ctx context.Context, q []byte) (*dnsmsg.Msg, error) {
@@ -33,6 +34,11 @@ func (u *vUpstream) ExchangeContext(ctx context.Context, q []byte) (*dnsmsg.Msg,
 		return nil, errVFake
 	}
 	m := vRespMsg(u.tag+".resp", u.maxRecs)
+	if u.fixedTTL {
+		for _, rr := range m.Answers {
+			rr.Hdr().TTL = 300
+		}
+	}
 	u.lastResp = m
 	return m, nil
 }
